@@ -17,6 +17,7 @@ Level        : exploration (the specification is an oracle; the decision is by r
 import json, os, subprocess, sys, threading
 from concurrent.futures import ThreadPoolExecutor
 from harness import core
+from harness.gen_tlc import light, tlc_light
 
 LEVEL = "exploration"
 
@@ -24,14 +25,15 @@ MC_CFG = """SPECIFICATION Spec
 CONSTANTS Variant = "%s"
   MaxToks = %d
   Mode = "%s"
+  MergeFull = %s
 %s
 CHECK_DEADLOCK FALSE
 """
-INVS = "INVARIANT ImplSatisfiesIdeal\nINVARIANT ImplEqualsIdeal\nINVARIANT SplitRenders"
+INVS = "INVARIANT AllClauses"
 
 
-def mc_cfg(mode, maxtoks, variant="faithful"):
-    return MC_CFG % (variant, maxtoks, mode, "" if mode == "dump" else INVS)
+def mc_cfg(mode, maxtoks, variant="faithful", full=False):
+    return MC_CFG % (variant, maxtoks, mode, "TRUE" if full else "FALSE", "" if mode == "dump" else INVS)
 
 
 STUB_C = r"""
@@ -181,7 +183,7 @@ def validate(ctx, recs):
     for lo in range(0, len(recs), 3000):
         chunk = recs[lo:lo + 3000]
         tp = core.write_json(os.path.join(ctx.tmp, "pk_%d.json" % len(ctx.cov["tlc_runs"])), chunk)
-        r = core.tlc("Trace_PkgConfig", workers=1, env={"TRACE_FILE": tp}, timeout=3000)
+        r = core.tlc("Trace_PkgConfig", workers=1, env=light({"TRACE_FILE": tp}), timeout=3000)
         ctx.add_tlc("Trace_PkgConfig", r, count_states=False)
         chk = core.tla_tuples(r.out, "CHECKED")
         if len(chk) != 1 or int(chk[0][0]) != len(chunk):
@@ -203,12 +205,13 @@ def run(ctx):
     dump = os.path.join(ctx.tmp, "pkg_universe.json")
     futs = [("MC_PkgConfig(stream,<=%d tokens)" % (2 if quick else 3), "mc",
              pool.submit(core.tlc, "MC_PkgConfig", cfg_text=mc_cfg("stream", 2 if quick else 3), workers=4, timeout=3000)),
-            ("MC_PkgConfig(merge)", "mc", pool.submit(core.tlc, "MC_PkgConfig", cfg_text=mc_cfg("merge", 1),
+            ("MC_PkgConfig(merge%s)" % ("" if quick else ",full alphabet"), "mc",
+             pool.submit(core.tlc, "MC_PkgConfig", cfg_text=mc_cfg("merge", 1, full=not quick),
                                                       workers=4 if quick else 8, timeout=3000)),
             ("oracle dump", "dump", pool.submit(core.tlc, "MC_PkgConfig", cfg_text=mc_cfg("dump", 1 if quick else 2),
-                                                workers=1, env={"PKG_OUT": dump}, timeout=3000))]
+                                                workers=1, env=light({"PKG_OUT": dump}), timeout=3000))]
     for v, mode in (("rsplit", "stream"), ("dupD", "stream"), ("overwrite", "merge"), ("dropempty", "stream")):
-        futs.append(("sanity:" + v, "sanity", pool.submit(core.tlc, "MC_PkgConfig", cfg_text=mc_cfg(mode, 1, v), workers=1)))
+        futs.append(("sanity:" + v, "sanity", pool.submit(tlc_light, "MC_PkgConfig", cfg_text=mc_cfg(mode, 1, v))))
     stub = Stub(ctx)
     try:
         rng = ctx.rng
